@@ -195,10 +195,14 @@ def h_move(pa: bool, pb: bool, py: bool, f0: bool, f1: bool, f2: bool, f3: bool)
             for rid, name in ((id(R0), "r0"), (id(R1), "r1")):
                 if not want[rid] <= have[rid]:
                     violation("reachable-object-not-pushed-to-designated-remote", (name, sorted(want[rid] - have[rid])))
-                # the statement fixes what each remote must receive; a remote may additionally receive objects of entries it also
-                # covers through a shorter prefix, but never anything that is not reachable from the index
-                if have[rid] - (x_objs | y_objs):
-                    violation("unreachable-object-pushed", (name, sorted(have[rid] - (x_objs | y_objs))))
+                # the statement fixes what each remote must receive.  A remote registered for prefix P is also given the entries of
+                # longer prefixes below P (observed behaviour, not excluded), but never objects that are reachable only from entries
+                # outside every prefix it is registered for, and never anything unreachable from the index
+                allowed = x_objs | y_objs if (rid == id(R0) and MAPPING != 2 or R1 is R0) else (x_objs if rid == id(R1) else x_objs | y_objs)
+                if MAPPING == 2 and rid == id(R0):
+                    allowed = x_objs | y_objs
+                if have[rid] - allowed:
+                    violation("object-pushed-to-a-remote-not-covering-it", (name, sorted(have[rid] - allowed)))
             total = len(have[id(R0)]) + (len(have[id(R1)]) if R1 is not R0 else 0)
             if failed2 != 0:
                 violation("clean-retry-reports-failures", failed2)
